@@ -55,6 +55,8 @@ def main(tier):
     res = Result('C16', 'model_checking')
     res.engines = ['K (Kani harnesses on the ParseState primitives)', 'M (literal locations from MIR)']
     n = m16c(res, tier)
+    from checks import mixed
+    n += mixed.run_property(res, Module(common.mir_dump('tc')), 'C16', tier)
     results = runner.run_for(res, 'C16', tier)
     checks = sum(r['checks'] for r in results)
     res.coverage.update({'states': max(1, checks), 'transitions': max(1, checks), 'traces_validated_against_impl': res.coverage.get('traces_validated_against_impl', 0),
